@@ -33,6 +33,12 @@ SYNTH = [  # (pattern, replacement, delete_atoms, valence-consistent)
     ('[C:1][Cl,Br,I;D1:2]', '[A:1]', False, 1),                                     # delete_atoms off: the halogen stays, the bond goes
     ('[C:1][O;D1:2]', '[A:1].[A:2]', True, 1),                                      # bond removed, both atoms named
     ('[C;D3;z1:1]([O:2])([N:3])[C:4]', '[A;@@:1]([A:2])([A:3])[A:4]', True, 1),     # stereo override
+    ('[C;D3;z1:1]([O:2])([N:3])[C:4]', '[A;@:1]([A:4])([A:3])[A:2]', True, 1),       # stereo override, neighbours named in another order
+    ('[C;D2:1]=[C;D2:2]', '[A;@:1]1O[A;@@:2]1', True, 1),                            # marks on atoms that carry a ring closure of the replacement
+    ('[C;D2:1]=[C;D2:2]', 'O1[A;@:1][A;@:2]1', True, 1),
+    ('[C;D2:1]=[C;D2:2]', '[A;@@:1]1[A;@:2]O1', True, 1),
+    ('[C;D2:1]=[C;D2:2]', '[A;@:1]1[C:3][A;@@:2]1', True, 1),
+    ('[C;D2:1]=[C;D2:2]', '[C:3]1[A;@:1][A;@:2]1', True, 1),
     ('[C:1][O;D1:2]', '[A:1][S:2]', True, 1),
     ('[C:1][Cl,Br;D1:2]', '[A:1][O:2]', True, 1),                                   # halide to alcohol (can make two substituents of a centre equal)
     ('[c:1][Cl,Br:2]', '[A:1][C:3]#[N:4]', True, 1),
@@ -95,9 +101,29 @@ def observe_apply(case):
         for k, mp in enumerate(maps[:case.get('maxmatch', 6)]):
             rec = {'kind': 'apply', 'exc': '', 'key': f"{case['key']}|match{k}", 'S': S, 'T': T, 'mu': [[a, b] for a, b in mp.items()], 'images': images, 'nprod': len(prods),
                    'filtered': 1 if flt else 0, 'rt': 1, 'Pdom': {'atoms': [], 'bonds': [], 'ct': [], 'rings': []}, 'valid': case.get('valid', 0) if not m.check_valence() else 0, 'bad': 0, 'P': {'atoms': [], 'bonds': []}, 'Pp': {'atoms': [], 'bonds': [], 'rings': []}}
+            rec['req'] = []
             if k < len(prods):
                 p = prods[k]
                 rec['P'] = numbered(p)
+                # configuration the replacement itself requests on a matched atom: the raw mark refers to the replacement's own neighbour
+                # order, followed by the neighbours the atom keeps from the structure (in the structure's order)
+                for rn, ra in r.atoms():
+                    if getattr(ra, 'stereo', None) is None or rn not in mp or mp[rn] not in p._atoms:
+                        continue
+                    pn = mp[rn]
+                    new_nb = [x for x in p._bonds[pn] if x not in m._atoms]
+                    seq, ok = [], True
+                    for x in r._bonds[rn]:
+                        if x in mp:
+                            seq.append(mp[x])
+                        elif len(new_nb) == 1:
+                            seq.append(new_nb[0])
+                        else:
+                            ok = False
+                    seq += [y for y in m._bonds[pn] if y in p._bonds[pn] and y not in seq]
+                    heavy = [y for y in seq if y in p._atoms and p._atoms[y].atomic_number != 1]
+                    if ok and len(set(seq)) == len(seq) and set(seq) == set(p._bonds[pn]) and heavy == seq and len(seq) in (3, 4):
+                        rec['req'].append({'n': pn, 'raw': 1 if ra.stereo else 0, 'seq': seq})
                 if not any(int(b._order) == 4 for *_, b in p.bonds()):   # the valence model of the spec reads Kekule forms
                     rec['Pp'] = mproj(p)
                 rec['bad'] = len(p.check_valence())
